@@ -24,14 +24,17 @@ var msgsBasePoints = []string{"nochan", "open-v0", "open-v1", "paid-v0", "paid-v
 var c12mode = msgsMode{Prop: "C12", Reject: true, Probe: true}
 
 var c12plan = msgsPlan{
-	Points: append(append([]string{}, msgsBasePoints...), "await-subfund"),
+	Points: append(append([]string{}, msgsBasePoints...), "await-subfund", "hub-fund", "hub-settle"),
 	Cats: map[string]bool{"proposal": true, "proposal-c12": true, "update": true, "vfund": true, "vsettle": true,
-		"sync": true, "response": true, "control": true},
+		"sync": true, "response": true, "control": true, "hubfund": true, "hubsettle": true},
+	// sync messages while the victim's machine mutex is held for longer than the 10 s sync reply timeout
+	HeldPts:     []string{"open-v0", "open-v1", "sub-v1"},
+	HeldCats:    map[string]bool{"sync": true},
 	PairPoints:  []string{"open-v1", "sub-v0"},
 	InflightPts: []string{"open-v1"},
 	InflightCats: map[string]bool{"proposal": true, "proposal-c12": true, "update": true, "vfund": true, "vsettle": true,
 		"sync": true, "response": true},
-	ThoroughPoints: []string{"hub-fund", "hub-fund2", "hub-settle", "hub-settle2", "hub-fund-quiet", "hub-settle-quiet"},
+	ThoroughPoints: []string{"hub-fund2", "hub-settle2", "hub-fund-quiet", "hub-settle-quiet"},
 	ThoroughCats:   map[string]bool{"hubfund": true, "hubsettle": true},
 	// the victim as hub, B silent: M's own well-formed funding / settlement proposal finds no partner
 	GapQuick: []gapFamily{
@@ -109,21 +112,21 @@ var c07mode = msgsMode{Prop: "C07"}
 
 var c07plan = msgsPlan{
 	Points: []string{"open-v0", "open-v1", "paid-v1", "sub-v0", "sub-v1", "sub2-v1", "final-v1",
-		"await-subfund", "await-subfund2", "await-subsettle", "await-subsettle2", "await-subsettle-paid"},
-	Cats: map[string]bool{"update": true, "fund": true, "settle": true, "vfund": true, "vsettle": true},
+		"await-subfund", "await-subfund2", "await-subsettle", "await-subsettle2", "await-subsettle-paid",
+		// the victim as hub, B's honest funding resp. settlement proposal waits at the hub: M's crafted one is MATCHED
+		"hub-fund", "hub-fund2", "hub-settle", "hub-settle2"},
+	Cats: map[string]bool{"update": true, "fund": true, "settle": true, "vfund": true, "vsettle": true, "hubfund": true, "hubsettle": true},
 	// the victim as hub with two virtual channels locked in its channel with M, B silent: a well-formed
 	// but unmatched settlement proposal, 11 s later an ordinary update
 	GapQuick: []gapFamily{{Point: "hub-two", Names: hubTwoSet, Pairs: [][2]string{
 		{"hubtwo/settle-first-unmatched", "hubtwo/update-locked-last-twice"},
 		{"hubtwo/settle-first-unmatched", "hubtwo/update-base"},
 		{"hubtwo/settle-last-unmatched", "hubtwo/update-locked-first-twice"}}}},
-	GapThorough:    []gapFamily{{Point: "hub-two", Names: hubTwoSet}},
-	PairPoints:     []string{"open-v1", "sub-v1"},
-	PairSeq:        true,
-	InflightPts:    []string{"open-v1"},
-	InflightCats:   map[string]bool{"update": true},
-	ThoroughPoints: []string{"hub-fund", "hub-fund2", "hub-settle", "hub-settle2"},
-	ThoroughCats:   map[string]bool{"hubfund": true, "hubsettle": true},
+	GapThorough:  []gapFamily{{Point: "hub-two", Names: hubTwoSet}},
+	PairPoints:   []string{"open-v1", "sub-v1"},
+	PairSeq:      true,
+	InflightPts:  []string{"open-v1"},
+	InflightCats: map[string]bool{"update": true},
 }
 
 var hubTwoSet = []string{"hubtwo/update-base", "hubtwo/settle-first-unmatched", "hubtwo/settle-last-unmatched",
